@@ -48,7 +48,7 @@ size_t __sanitizer_get_current_allocated_bytes(void);
 #endif
 
 #define NH 256
-#define MAXTOK 64
+#define MAXTOK 4096
 
 static const char *ERRN[] = {
   "ECONF_SUCCESS", "ECONF_ERROR", "ECONF_NOMEM", "ECONF_NOFILE", "ECONF_NOGROUP", "ECONF_NOKEY",
@@ -497,6 +497,51 @@ static int run_cmd(struct ctx *c, char **t, int nt) {
     econf_freeFile(kf);
     fprintf(o, "{\"op\":\"sweep\",\"T\":\"%s\",\"mode\":\"%s\",\"lo\":\"%" PRIx64 "\",\"hi\":\"%" PRIx64 "\",\"step\":%" PRIu64 ",\"count\":%" PRIu64 ",\"bad\":%" PRIu64 ",\"firstbad\":\"%" PRIx64 "\",\"badrc\":\"%s\"}\n",
             T, ARG(2), lo, hi, step, count, bad, firstbad, ename(badrc));
+    free(dir); return 0; }
+
+  /* ----- boolsweep <alphabet> <maxlen> : every string over the alphabet up to maxlen through setString + getBool ----- */
+  if (!strcmp(op, "boolsweep")) {
+    size_t na; char *alpha = tokstr(ARG(1), &na); int maxlen = atoi(ARG(2));
+    econf_file *kf = NULL; uint64_t count = 0; int first = 1;
+    if (econf_newKeyFile(&kf, '=', '#') || na == 0 || maxlen > 8) { fprintf(o, "{\"op\":\"boolsweep\",\"rc\":\"ECONF_ERROR\"}\n"); free(alpha); return 0; }
+    fprintf(o, "{\"op\":\"boolsweep\",\"maxlen\":%d,\"accepted\":[", maxlen);
+    for (int len = 0; len <= maxlen; len++) {
+      int idx[8] = {0}; char buf[9];
+      for (;;) {
+        for (int i = 0; i < len; i++) buf[i] = alpha[idx[i]];
+        buf[len] = 0;
+        bool v = false; econf_err es = econf_setStringValue(kf, "s", "k", buf), eg = es ? es : econf_getBoolValue(kf, "s", "k", &v);
+        count++;
+        if (!eg) { if (!first) fputc(',', o); first = 0; fputs("{\"s\":", o); js(o, buf); fprintf(o, ",\"v\":%s}", v ? "true" : "false"); }
+        int p = len - 1; while (p >= 0 && ++idx[p] == (int)na) { idx[p] = 0; p--; }
+        if (p < 0) break;
+      }
+    }
+    fprintf(o, "],\"count\":%" PRIu64 "}\n", count);
+    econf_freeFile(kf); free(alpha); return 0; }
+
+  /* ----- rtlist <T> <mode> <dir> <hex>... : typed round trip of listed bit patterns (C08) ----- */
+  if (!strcmp(op, "rtlist")) {
+    const char *T = ARG(1); int viafile = !strcmp(ARG(2), "file"); char *dir = tokstr(ARG(3), NULL);
+    uint64_t count = 0, bad = 0, firstbad = 0; econf_file *kf = NULL;
+    if (econf_newKeyFile(&kf, '=', '#')) { free(dir); return 0; }
+    for (int a = 4; a < nt; a++) {
+      uint64_t b = strtoull(t[a], NULL, 16); int ok = 1; econf_file *q = kf, *rd = NULL; econf_err es = 0, eg = 0;
+#define VIA2() do { if (viafile) { es = es ? es : econf_writeFile(kf, dir, "rt.conf"); char *pp; if (asprintf(&pp, "%s/rt.conf", dir) < 0) pp = NULL; \
+                     if (!es) es = econf_readFile(&rd, pp, "=", "#"); free(pp); q = rd; } } while (0)
+      if (!strcmp(T, "Int")) { int32_t v = (int32_t)(uint32_t)b, r = 0; es = econf_setIntValue(kf, "s", "k", v); VIA2(); if (!es) eg = econf_getIntValue(q, "s", "k", &r); ok = !es && !eg && r == v; }
+      else if (!strcmp(T, "UInt")) { uint32_t v = (uint32_t)b, r = 0; es = econf_setUIntValue(kf, "s", "k", v); VIA2(); if (!es) eg = econf_getUIntValue(q, "s", "k", &r); ok = !es && !eg && r == v; }
+      else if (!strcmp(T, "Int64")) { int64_t v = (int64_t)b, r = 0; es = econf_setInt64Value(kf, "s", "k", v); VIA2(); if (!es) eg = econf_getInt64Value(q, "s", "k", &r); ok = !es && !eg && r == v; }
+      else if (!strcmp(T, "UInt64")) { uint64_t v = b, r = 0; es = econf_setUInt64Value(kf, "s", "k", v); VIA2(); if (!es) eg = econf_getUInt64Value(q, "s", "k", &r); ok = !es && !eg && r == v; }
+      else if (!strcmp(T, "Float")) { float v, r = 0; uint32_t bb = (uint32_t)b, rb; memcpy(&v, &bb, 4); es = econf_setFloatValue(kf, "s", "k", v); VIA2(); if (!es) eg = econf_getFloatValue(q, "s", "k", &r);
+        memcpy(&rb, &r, 4); ok = !es && !eg && (rb == bb || (v != v && r != r)); }
+      else if (!strcmp(T, "Double")) { double v, r = 0; uint64_t rb; memcpy(&v, &b, 8); es = econf_setDoubleValue(kf, "s", "k", v); VIA2(); if (!es) eg = econf_getDoubleValue(q, "s", "k", &r);
+        memcpy(&rb, &r, 8); ok = !es && !eg && (rb == b || (v != v && r != r)); }
+      if (rd) econf_freeFile(rd);
+      count++; if (!ok) { if (!bad) firstbad = b; bad++; }
+    }
+    econf_freeFile(kf);
+    fprintf(o, "{\"op\":\"rtlist\",\"T\":\"%s\",\"mode\":\"%s\",\"count\":%" PRIu64 ",\"bad\":%" PRIu64 ",\"firstbad\":\"%" PRIx64 "\"}\n", T, ARG(2), count, bad, firstbad);
     free(dir); return 0; }
 
   /* ----- threads (C18):  threads <n> <file1> ... : each file is a script run by its own thread with a private ctx;
